@@ -53,6 +53,34 @@ def loss(y, p):
     return d * d
 
 
+_RIVER = {}
+
+
+def river_model():
+    """ONE river classifier object per process whose predict_one returns string labels (a new label appears late in
+    the stream); it is explained again and again by the cells of a process, as a user would replay a stream on a model."""
+    if 'm' not in _RIVER:
+        from river import base
+
+        class RuleClassifier(base.Classifier):
+            def learn_one(self, x, y):
+                return self
+
+            def predict_one(self, x):
+                s = x['n1'] + x['n2']
+                return 'late' if s > 1.2 else ('pos' if s > 0.3 else 'neg')
+
+            def predict_proba_one(self, x):
+                return {self.predict_one(x): 1.0}
+        _RIVER['m'] = RuleClassifier()
+    return _RIVER['m']
+
+
+def label_loss(y, p):
+    want = 'pos' if y > 0.5 else 'neg'
+    return sum((v - (1.0 if k == want else 0.0)) ** 2 for k, v in p.items()) + (0.0 if want in p else 1.0)
+
+
 def configs():
     out = []
     for expl in ('pfi', 'sage-dynamic', 'sage-static'):
@@ -67,6 +95,8 @@ def configs():
                                 direct=direct, n=1))
     for mode in ('batch', 'batch-original', 'interval'):
         out.append(dict(expl=mode, storage='own', imputer='own', n=2))
+    for expl in ('sage-dynamic', 'sage-static', 'pfi'):
+        out.append(dict(expl=expl, storage='geometric', imputer='joint', n=1, river=True))
     return out
 
 
@@ -133,16 +163,24 @@ def run_cell(cfg, seeds, prehist, skind, n_obs):
         imputer = TreeImputer(model, storage_object=storage, direct_predict_numeric=cfg['direct'],
                               use_storage=cfg['use_storage'])
     e = cfg['expl']
+    mdl, lss = model, loss
+    if cfg.get('river'):
+        mdl, lss = river_model().predict_one, label_loss
+        imputer = MarginalImputer(mdl, cfg['imputer'], storage)
     if e == 'pfi':
-        ex = IncrementalPFI(model, loss, names, storage=storage, imputer=imputer, n_inner_samples=cfg['n'],
+        ex = IncrementalPFI(mdl, lss, names, storage=storage, imputer=imputer, n_inner_samples=cfg['n'],
                             smoothing_alpha=0.05)
     elif e.startswith('sage'):
-        ex = IncrementalSage(model, loss, names, storage=storage, imputer=imputer, n_inner_samples=cfg['n'],
+        ex = IncrementalSage(mdl, lss, names, storage=storage, imputer=imputer, n_inner_samples=cfg['n'],
                              dynamic_setting=(e == 'sage-dynamic'), smoothing_alpha=0.05)
     elif e == 'interval':
-        ex = IntervalSage(model, names, loss, n_inner_samples=cfg['n'], interval_length=3, storage_length=6)
+        from ixai.storage import IntervalStorage
+        storage = IntervalStorage(size=6, store_targets=True)
+        ex = IntervalSage(model, names, loss, n_inner_samples=cfg['n'], interval_length=3, storage=storage)
     else:
-        ex = BatchSage(model, names, loss, n_inner_samples=cfg['n'])
+        from ixai.storage import BatchStorage
+        storage = BatchStorage(store_targets=True)
+        ex = BatchSage(model, names, loss, n_inner_samples=cfg['n'], storage=storage)
     digests = []
     if e in ('batch', 'batch-original'):
         data = data[:12]
@@ -156,7 +194,8 @@ def run_cell(cfg, seeds, prehist, skind, n_obs):
             vals = ex.explain_one(dict(x), y, verbose=False)
         else:
             vals = ex.explain_one(dict(x), y)
-        img = (sorted((str(k), hx(v)) for k, v in dict(vals).items()), storage_image(ex._storage))
+        st_obj = storage if storage is not None else getattr(ex, '_storage', None)   # library default: private, optional
+        img = (sorted((str(k), hx(v)) for k, v in dict(vals).items()), storage_image(st_obj) if st_obj is not None else None)
         digests.append(hashlib.sha1(repr(img).encode()).hexdigest()[:16])
     return digests
 
@@ -395,7 +434,7 @@ def main(rep):
 def cfg_label(cfg):
     if cfg['storage'] == 'tree':
         return f"{cfg['expl']}+TreeStorage(seed={cfg['tree_seed']})+TreeImputer(use_storage={cfg['use_storage']},direct={cfg['direct']})"
-    return f"{cfg['expl']}+{cfg['storage']}+{cfg['imputer']}"
+    return f"{cfg['expl']}+{cfg['storage']}+{cfg['imputer']}" + ('+river-string-label-model' if cfg.get('river') else '')
 
 
 def replay(data):
